@@ -242,24 +242,31 @@ Definition attr_okb (vals : list (list V)) (n : nat) (a : attr) (o : obs_attr) :
 Definition var_okb (vals : list (list V)) (v : var) (o : list obs_attr) : bool :=
   list_eqb (attr_okb vals (numel (vshape v))) (vattrs v) o.
 
-Definition names (m : model) := map (map (fun v => (vname v, vshape v, vptype v, valiases v))) (m_meta m).
+Definition static := (nat * (nat * nat) * nat * nat)%type.
+Definition static_eqb (a b : static) : bool :=
+  let '(n1, (r1, c1), p1, a1) := a in let '(n2, (r2, c2), p2, a2) := b in
+  Nat.eqb n1 n2 && Nat.eqb r1 r2 && Nat.eqb c1 c2 && Nat.eqb p1 p2 && Nat.eqb a1 a2.
+Definition statics (vs : list var) : list static := map (fun v => (vname v, vshape v, vptype v, valiases v)) vs.
 
-(* a case: the saved model (attributes translated from the real fresh model), the parameter
-   valuations, what the real save_model stored (dependency matrices, delay dependency lists), what
-   the real load_model reconstructed (attribute kinds and values; delay durations at two points) *)
 Definition case :=
   (model * list (list V) * list (list (list dep)) * list (list (list obs_attr))
-   * (list (list nat) * list (list V) * list (list V)))%type.
+   * (list (list nat) * list (list V) * list (list V))
+   * (list (list static) * list static * (nat * nat * nat * nat)))%type.
 
 Definition nat_list_eqb (a b : list nat) : bool :=
   Nat.eqb (length a) (length b) && forallb (fun x => memb x b) a && forallb (fun x => memb x a) b.
 
+(* observed side: dependency matrices and delay dependency lists read from the real cache file,
+   attribute kinds / values, delay durations, names / shapes / python types / alias sets (tokens) and
+   outputs / delay states / strings / alias relation (tokens) of the real LOADED model *)
 Definition check_case (c : case) : bool :=
-  let '(m, vals, odep, oattrs, (oddep, dpts, odur)) := c in
+  let '(m, vals, odep, oattrs, (oddep, dpts, odur), (ostat, oder, (t1, t2, t3, t4))) := c in
   let d := save m in
   let l := load (fun f => f) (fun f => f) d in
   list_eqb (list_eqb (list_eqb dep_eqb)) (db_dep d) odep
   && list_eqb (list_eqb (var_okb vals)) (m_meta l) oattrs
-  && list_eqb (fun a b => list_eqb (fun x y => Nat.eqb (fst (fst (fst x))) (fst (fst (fst y)))) a b) (names l) (names m)
+  && list_eqb (list_eqb static_eqb) (map statics (m_meta l)) ostat
+  && list_eqb static_eqb (statics (m_der l)) oder
+  && Nat.eqb (m_outputs l) t1 && Nat.eqb (m_delay_states l) t2 && Nat.eqb (m_strings l) t3 && Nat.eqb (m_alias l) t4
   && list_eqb nat_list_eqb (db_delay_dep d) oddep
   && list_eqb (list_eqb V_eqb) (map (fun pt => map (fun ed => eval (rho_of pt) (snd ed)) (m_delays l)) dpts) odur.
